@@ -164,6 +164,15 @@ def replay_co(o, scratch):
             continue
         pl = extra._probe_line(st["kind"], st["arg"])
         probes = [a for i, (l, a) in enumerate(zip(lines, ans)) if l == pl and st["new"] < i < st["end"]]
+        if st["kind"] == "pagelinks":
+            # the single-switch probes recorded after each full probe give the class of every link at that moment (F16c)
+            cls_lines = ["? pagelinks %d %s %s" % (st["arg"]["w"], st["arg"]["ps"], fl) for fl in ("1 0 0", "0 1 0", "0 0 1")]
+            cls = []
+            for i, l in enumerate(lines):
+                if l == pl and st["new"] < i < st["end"] and lines[i + 1:i + 4] == cls_lines:
+                    cls.append(tuple(frozenset(extra._items(ans[i + k])) for k in (1, 2, 3)))
+            if cls:
+                st["arg"]["cls"] = cls
         hits, known = extra._judge_query(st["kind"], st["arg"], st["answer"], probes, static_we)
         for reason, detail in hits:
             print("FAILS: request %d: %s %s" % (cid, reason, detail)); bad = True
